@@ -223,7 +223,8 @@ def install(ctx):
 
 
 def make_study(ctx):
-    fail = set(ctx.scen["fail"])
+    fbi = ctx.scen.get("fail_by_inc")
+    fail = set(fbi[ctx.inc - 1]) if fbi and ctx.inc - 1 < len(fbi) else set(ctx.scen["fail"])      # transient failures: per incarnation
     delays = ctx.scen.get("delays", {})
     counter_dir = os.path.join(ctx.root, "counters")
 
